@@ -50,7 +50,12 @@ Theorem c05_table_arity : forall x y d z k f,
 Proof. exact table_arity. Qed.
 Print Assumptions c05_table_arity.
 
-(* Rejection leaves the destination unchanged. *)
+(* Rejection leaves the destination unchanged.  BY CONSTRUCTION of the model: the refusing branches
+   of ConvertModel.convert are literally (dst, fail) - the theorem only names which argument
+   combinations take them.  That the LIBRARY leaves the destination alone is tied: the
+   correspondence digests the destination after every refused call, with the three allocation sizes
+   and the count of non-initial cells in the allocation tails (J), and the review's sweep digested
+   every allocated byte. *)
 Theorem c05_convert_reject_unchanged : forall (V : Type) (vzero vdef : V) dd2 conv din dout same ntz,
   (vpt_of_Z ntz = None \/
    (exists nt, vpt_of_Z ntz = Some nt /\
@@ -63,8 +68,10 @@ Print Assumptions c05_convert_reject_unchanged.
 (* ---------------------------------------------------------------- the result of a conversion
    Inv = the representation invariant of the container (DataProofs.Inv: logical sizes within the
    allocations, every cell outside the logical box initial, type fits the dimensions; it holds in
-   every state reachable from vnadata_alloc, c15_inv_reachable, and in every state of the
-   two-object machine, c05_machine_invariant below).  `same` = the two pointers are equal
+   every state reachable from vnadata_alloc BY CONTAINER OPERATIONS AND CONVERSIONS, c15_inv_reachable,
+   c05_machine_invariant / c15_machine_invariant; vnadata_load is not in that alphabet: before fix
+   DB91 the NPD loader could store a precision of 0, which Inv excludes - see
+   c05_model_variant_before_DB91_precision_zero at the end of this file).  `same` = the two pointers are equal
    (the destination argument is then ignored); otherwise dout is ANY valid object - larger or
    smaller allocations, other type, other z0 mode, old contents.
 
@@ -149,10 +156,12 @@ Theorem c05_convert_inplace_eq_outofplace_traces :
 Proof. exact convert_inplace_eq_outofplace_traces. Qed.
 Print Assumptions c05_convert_inplace_eq_outofplace_traces.
 
-(* dd2 = whether the repair of finding DD2 (fixes/DD2_convert_keeps_fz0_mode.diff) is in the code:
-   the check selects the value the compiled code exhibits.  The hypothesis out_perf = per_f holds
+(* dd2: the repair of finding DD2 (fixes/applied/DD2_convert_keeps_fz0_mode.diff) IS in /repo, so
+   dd2 = true is the code; dd2 = false is the MODEL VARIANT BEFORE DD2, kept so that the probe of
+   lib/datalib.py can still classify an unrepaired tree; the theorems quantified over dd2 say nothing
+   more about /repo than their dd2 = true instance.  The hypothesis out_perf = per_f holds
    - always when dd2 = true (c05_convert_inplace_eq_outofplace_repaired states that case without it),
-   - for the code as found (dd2 = false) for every source in ordinary z0 mode and for every source
+   - in the variant before DD2 (dd2 = false) for every source in ordinary z0 mode and for every source
      in per-frequency mode that has at least one frequency (and at least one port when converting
      to Zin). *)
 Theorem c05_convert_inplace_eq_mode_condition : forall (V : Type) dd2 (d : vd V) nt cs,
@@ -181,10 +190,10 @@ Theorem c05_convert_inplace_eq_outofplace_traces_repaired :
 Proof. exact convert_inplace_eq_outofplace_traces_repaired. Qed.
 Print Assumptions c05_convert_inplace_eq_outofplace_traces_repaired.
 
-(* Outside that condition the clause is false of the code as found (dd2 = false, finding DD2): a 2 x 2 object in
+(* Outside that condition the clause is false of the model variant before DD2 (dd2 = false; not /repo any more): a 2 x 2 object in
    per-frequency-z0 mode with no frequencies converts in place to an object that still is in
    per-frequency mode, and into a fresh object to one in ordinary mode (vnadata_has_fz0). *)
-Theorem c05_convert_inplace_eq_refuted_without_frequencies :
+Theorem c05_model_variant_before_DD2_inplace_eq_refuted :
   Inv sym (L 0) (L 50) ex_nofreq /\
   per_f sym ex_nofreq = true /\ freqs sym ex_nofreq = 0 /\
   snd (convert sym (L 0) (L 50) fixed false sconv ex_nofreq ex_nofreq true 4) = ok sym /\
@@ -193,7 +202,7 @@ Theorem c05_convert_inplace_eq_refuted_without_frequencies :
   snd (has_fz0 sym (fst (convert sym (L 0) (L 50) fixed false sconv ex_nofreq (vd_alloc sym (L 0) (L 50)) false 4)))
     = okp sym (PBool false).
 Proof. exact (conj ex_nofreq_inv convert_inplace_eq_refuted_without_frequencies). Qed.
-Print Assumptions c05_convert_inplace_eq_refuted_without_frequencies.
+Print Assumptions c05_model_variant_before_DD2_inplace_eq_refuted.
 
 (* The previous contents of the destination are irrelevant. *)
 Theorem c05_convert_destination_irrelevant : forall (V : Type) (vzero vdef : V) dd2 conv d dout1 dout2 ntz nt cs,
@@ -501,3 +510,34 @@ Proof.
            (conj (roundtrip_satisfiable swap X Y perf) (zin_chain_satisfiable swap X Y perf))).
 Qed.
 Print Assumptions c05_composed_hypotheses_satisfiable.
+
+(* ======================================================================================
+   After the second review (Data/TwoObjVariants.v). *)
+Require Import LV.Data.TwoObjVariants.
+
+(* the z0 clause of c05_convert_pointwise is per frequency and therefore empty for an object
+   without frequencies: the ordinary impedance vector is carried over as a whole *)
+Theorem c05_convert_keeps_ordinary_z0 : forall (V : Type) (vzero vdef : V) conv d dout same ntz nt cs,
+  Inv V vzero vdef d -> Inv V vzero vdef dout -> vpt_of_Z ntz = Some nt -> conv_spec (ty V d) nt = Some cs ->
+  dim_ok (cs_dim cs) (rows V d) (cols V d) = true -> per_f V d = false ->
+  let d' := fst (convert V vzero vdef fixed true conv d dout same ntz) in
+  per_f V d' = false /\ forall p, z0v V d' p = z0v V d p.
+Proof. exact convert_keeps_ordinary_z0. Qed.
+Print Assumptions c05_convert_keeps_ordinary_z0.
+
+(* Inv is a real premise: a source with fprecision 0 (what `#:fprecision 0` in an NPD file left
+   behind before fix DB91) is not Inv; its conversion S -> Z into a used second object fails in the
+   option copy after the destination has been wiped (type undefined, all cells 0), the same
+   conversion in place succeeds.  Variant before the fix. *)
+Theorem c05_model_variant_before_DB91_precision_zero :
+  ~ Inv sym (L 0) (L 50) bad_src /\
+  (let r := convert sym (L 0) (L 50) fixed true sconv bad_src ex_dst false 4 in
+   snd r = fail sym /\
+   (ty sym (fst r), rows sym (fst r), cols sym (fst r), freqs sym (fst r)) = (VUNDEF, 2, 2, 2) /\
+   ob_dat sym (observe sym (fst r)) = [[L 0; L 0; L 0; L 0]; [L 0; L 0; L 0; L 0]] /\
+   ob_dat sym (observe sym ex_dst) <> ob_dat sym (observe sym (fst r))) /\
+  (let r := convert sym (L 0) (L 50) fixed true sconv bad_src bad_src true 4 in
+   snd r = ok sym /\ ty sym (fst r) = VZ /\
+   nth 0 (nth 0 (ob_dat sym (observe sym (fst r))) []) (L 0) = R (FN VS VZ) 2 [L 1; L 2; L 3; L 4] [L 50; L 75] 0).
+Proof. exact model_variant_before_DB91_precision_zero. Qed.
+Print Assumptions c05_model_variant_before_DB91_precision_zero.
